@@ -163,7 +163,7 @@ def gen_schedules(fam, tier, seed, work):
         out, rc, wall = tlc(d, sc["module"], sc["cfg"], workers=1, timeout=600)
         open(os.path.join(d, "out.txt"), "w").write(out)
         ss = sched_extract.extract(os.path.join(d, "out.txt"))
-        n_exp = sum(1 for _ in open(os.path.join(VERIF, "scenarios", sc["file"])))
+        n_exp = sum(1 for l in open(os.path.join(VERIF, "scenarios", sc["file"])) if l.strip())
         if len(ss) != n_exp:
             raise Machinery("scenario file %s: %d of %d scenarios came back from TLC\n%s" %
                             (sc["file"], len(ss), n_exp, out[-3000:]))
